@@ -18,6 +18,7 @@ EXPLANATION += ' R10.2 also requires keep_streams_running[new id] to be set to t
 EXPLANATION += " R10.1 also requires the channel's own consume -- which the drain loop asks -- to ask its queue on every path; (R10.7) cursor discipline of the live-list rebuild: the first entry lands on index 0, every entry store is paired with exactly one cursor bump, and the sentinel padding starts at the first unwritten index (cursor+1 when the bump precedes the store, cursor when it follows) -- no stale id behind the last live entry, no live entry overwritten."
 EXPLANATION += ' R10.6 requires the sort of the vacant snapshot on every path (not only when the ring wraps or MAX_STREAMS is large); (R10.8) the fan-outs walk the live list only (C03 R03.3).'
 EXPLANATION += ' (R10.9) a listener told to end still yields what was accepted for it: the end flag is consulted only after its queue answered empty (C06 R06.2).'
+EXPLANATION += ' R10.7 also requires the sentinel padding to reach the end of the list (a range ending at MAX_STREAMS, or a single sentinel written whenever its index is below MAX_STREAMS itself).'
 ASSUMPTIONS = ["the rebuild algorithm inside sync_vacant_and_used_streams (live list = complement of the vacant FIFO) is covered by the unit tests' sequential histories, not re-proved here",
                "'all of them if it keeps polling' is the delivery / wake-up behaviour of C03 / C04"]
 
